@@ -54,12 +54,14 @@ META = {
         "(cross-checked against the real functions on every run); hand-written models of constant-fold-interp / "
         "test passes / CSE (correspondence-checked); named hypotheses: binary32 double rounding (f32 only), "
         "soundness of Region.is_structurally_equivalent (property C03) and the meaning of the memory-effect traits "
-        "(CSE). Not covered: canonicalization patterns of dialects other than arith/scf/cf; FoldConstsByReassociation "
-        "and SelectFoldCmpfPattern (fastmath-gated); vector/tensor constants; scf/cf patterns are covered by the "
+        "(CSE); SelectFoldCmpfPattern is hand-modelled (C14/SelCmpf.v, sound for non-NaN operands up to the sign of a "
+        "zero = the nnan/nsz contract) and correspondence-checked. Not covered: canonicalization patterns of dialects "
+        "other than arith/scf/cf; FoldConstsByReassociation (fastmath reassoc); vector/tensor constants; scf/cf patterns are covered by the "
         "whole-pass oracle only (no Coq model); CSE on ops with alloc/free effects and symbol ops."),
 }
-COQ_TARGETS = ["C14/Enc.vo", "C14/ProofsInt.vo", "C14/ProofsFloat.vo", "C14/ProofsCSE.vo", "Props/C14.vo"]
-REQ = ["C14.Pre", "Gen.C14_Arith", "C14.ModelInt", "C14.ModelFloat", "C14.ModelCSE", "C14.Enc"]
+COQ_TARGETS = ["C14/Enc.vo", "C14/ProofsInt.vo", "C14/ProofsFloat.vo", "C14/ProofsCSE.vo", "C14/SelCmpf.vo",
+               "Props/C14.vo"]
+REQ = ["C14.Pre", "Gen.C14_Arith", "C14.ModelInt", "C14.ModelFloat", "C14.ModelCSE", "C14.SelCmpf", "C14.Enc"]
 ASSUMPTIONS = [
     "programs are verified SSA (each value defined once, uses dominated by definitions)",
     "integer constants are scalar IntegerAttr of the operand type (no vector/tensor splats)",
@@ -778,6 +780,91 @@ def tcf_known(case, res):
     if spec and isinstance(r, list) and r[0] == -1 and not consts and r[1] in (6, 10):
         return "C14-kf-8"
     return None
+
+
+# ============================================================================ family: SelectFoldCmpfPattern
+
+SC_FLAGS = {"none": "", "nnan": " fastmath<nnan>", "nsz": " fastmath<nsz>", "both": " fastmath<nnan,nsz>",
+            "fast": " fastmath<fast>"}
+CMPF_NAMES = ["false", "oeq", "ogt", "oge", "olt", "ole", "one", "ord", "ueq", "ugt", "uge", "ult", "ule", "une",
+              "uno", "true"]
+
+
+def selcmpf_text(case):
+    """%s = select(cond, x, y) where cond is `cmpf pred, %a, %b <flags>` (or an i1 argument) and (x, y) is
+    (a, b) ["same"], (b, a) ["swapped"] or (a, %z) ["other"]"""
+    F = case["fmt"]
+    x, y = {"same": ("%a", "%b"), "swapped": ("%b", "%a"), "other": ("%a", "%z")}[case["order"]]
+    cond = "%k" if case["cond"] == "cmpf" else "%q"
+    return (f"func.func @main(%a: {F}, %b: {F}, %z: {F}, %q: i1) -> {F} {{\n"
+            f"  %k = arith.cmpf {CMPF_NAMES[case['pred']]}, %a, %b{SC_FLAGS[case['flags']]} : {F}\n"
+            f"  %s = arith.select {cond}, {x}, {y} : {F}\n"
+            f"  func.return %s : {F}\n}}")
+
+
+def selcmpf_impl(case):
+    from xdsl.dialects import arith
+    from xdsl.pattern_rewriter import PatternRewriter
+    from xdsl.transforms.canonicalization_patterns.arith import SelectFoldCmpfPattern
+    m = parse_module(selcmpf_text(case))
+    f = list(m.body.block.ops)[0]
+    ops = list(f.body.block.ops)
+    sel, ret = ops[1], ops[2]
+    x, y = sel.lhs, sel.rhs
+    try:
+        SelectFoldCmpfPattern().match_and_rewrite(sel, PatternRewriter(sel))
+        m.verify()
+    except Exception as e:
+        return [-1, exc_code(e)]
+    d = ret.operands[0].owner
+    if d is sel:
+        return 0
+    if isinstance(d, (arith.MaximumfOp, arith.MinimumfOp)) and list(d.operands) == [x, y]:
+        return 1 if isinstance(d, arith.MaximumfOp) else 2
+    return [8, 0]
+
+
+def selcmpf_coq(case):
+    fl = case["flags"]
+    nnan, nsz = fl in ("nnan", "both", "fast"), fl in ("nsz", "both", "fast")
+    return (f"c14_selcmpf_case {coq_bool(case['cond'] == 'cmpf')} {coq_bool(nnan)} {coq_bool(nsz)} "
+            f"{coq_bool(case['order'] == 'same')} {case['pred']}")
+
+
+def selcmpf_inputs(fmt, nnan):
+    B = F64_BOUNDARY[:13] if fmt == "f64" else F32_BOUNDARY[:13]
+    vals = [b for b in B if not (nnan and ref.fp_isnan(b, fmt))]
+    return [(a, b) for a in vals for b in vals]
+
+
+def selcmpf_holds(case, res):
+    """the whole canonicalize pass on the program, before vs after, by the reference evaluator; with nnan the
+    inputs are NaN-free, with nsz two zeros of different sign count as equal (the fastmath contract)"""
+    if isinstance(res, list) and res[0] == -1:
+        return False, f"SelectFoldCmpfPattern raised exception code {res[1]}"
+    fmt = case["fmt"]
+    fl = case["flags"]
+    nnan, nsz = fl in ("nnan", "both", "fast"), fl in ("nsz", "both", "fast")
+    m0 = parse_module(selcmpf_text(case))
+    m1 = parse_module(selcmpf_text(case))
+    try:
+        pass_by_name("canonicalize").apply(xctx(), m1)
+        m1.verify()
+    except Exception as e:
+        return False, f"canonicalize raised {type(e).__name__} on a select of a cmpf"
+    if str(m1) == str(m0):
+        return True, ""
+    zero = lambda b: ref.fp_decode(b, fmt)[0] == "fin" and ref.fp_decode(b, fmt)[2] == 0
+    zs = [F64_BOUNDARY[11] if fmt == "f64" else F32_BOUNDARY[11]]
+    for a, b in selcmpf_inputs(fmt, nnan):
+        for q in (0, 1):
+            r0 = ref.run_func(m0, "main", [a, b, zs[0], q])[1][0]
+            r1 = ref.run_func(m1, "main", [a, b, zs[0], q])[1][0]
+            if r0 == r1 or (ref.fp_isnan(r0, fmt) and ref.fp_isnan(r1, fmt)) or (nsz and zero(r0) and zero(r1)):
+                continue
+            return False, (f"canonicalize changed select({CMPF_NAMES[case['pred']]}(a, b){SC_FLAGS[fl]}, {case['order']}) "
+                           f"on a={hex(a)}, b={hex(b)}: {hex(r0)} -> {hex(r1)}")
+    return True, ""
 
 
 # ============================================================================ driver (harness/props/c14_run.py)
